@@ -101,6 +101,29 @@ def gen_faults(tier, seed):
             c = g.case("f%d" % n)
             c.meta["fault"] = kind
             cases.append(c)
+    # the transport dies while the client's own close is under way: its Connection.Close has been
+    # queued (and flushed, or not), the server's CloseOk has not arrived - the close did NOT complete
+    for v, kind in enumerate(["eof", "err", "err:timedout", "err:reset", "flip", "eof", "err:interrupted", "err:aborted"]):
+        g, inbound, cl = base(Rng(1), v)
+        g.op("send 0 close0 %s" % hx(amqp.connection_close(200, "goodbye")))
+        g.op("ev 0")
+        if v % 2 == 0:
+            g.op("wscript w:1000000"); g.op("write")
+        some = inbound[:(v * 3) % len(inbound)]
+        data = b"".join(f.bytes for f in some)
+        if kind == "flip":
+            bad = mg.heartbeat().bytes[:-1] + b"\x00"
+            g.use(mg.Fr(bad, ["bad"])); g.frames[-1].dec = ["bad"]
+            g.op("feed c:" + (data + bad).hex())
+        else:
+            g.op("feed " + (("c:" + data.hex() + " ") if data else "") + kind)
+        g.op("ev stream r")
+        g.op("done")
+        epilogue(g)
+        n += 1
+        c = g.case("c%d" % n)
+        c.meta["fault"] = "flip" if kind == "flip" else ("eof" if kind == "eof" else "err")
+        cases.append(c)
     # write faults at every write of a flush in small pieces
     for pieces in range(0, 12 if tier == "quick" else 40):
         g, inbound, cl = base(Rng(1), pieces)
@@ -235,15 +258,35 @@ def close_monitor(case, il, sl):
     return None
 
 
+def gen_unsolicited(tier, seed):
+    """A misbehaving server sends replies nobody asked for: the bounded reply queue fills up. The
+    I/O thread must give up (the loop ends, everybody is released) - it must never wait for a client."""
+    cases = []
+    for k in (2, 3, 4):
+        for tail in ("eof", "none"):
+            g, inbound, cl = base(Rng(1), 0)
+            # channel 1 is idle as far as calls go (its call in flight is on channel 2)
+            g.feed([mg.simple_ok(1, "basic.qos-ok")] * k, direct=True)
+            if tail == "eof":
+                g.op("feed eof"); g.op("ev stream r")
+            epilogue(g)
+            c = g.case("u%d%s" % (k, tail))
+            c.meta["fault"] = None
+            cases.append(c)
+    return cases
+
+
 def suites(tier, seed):
     import apigen
     return [
+        Suite("unsolicited-replies", "machine", lambda: gen_unsolicited(tier, seed), monitor=monitor, nontrivial=nontrivial, canon=mg.canon_nondet, candidate_ok=mg.candidate_ok, timeout=25, shrink=False,
+              rule="a busy session; the server sends 2 / 3 / 4 replies nobody asked for on an idle channel (its bounded reply queue fills), then the socket closes or not: the I/O thread never waits for a client - the loop ends, every queue is released (a step that does not return within 25 s is a hang)"),
         Suite("close-root-cause", "api", lambda: gen_close(tier, seed), monitor=close_monitor, nontrivial=nontrivial, canon=apigen.canon, exhaustive=True,
               rule="Connection::close over ApiProbe with the I/O thread's end result in {Ok, UnexpectedSocketClose, MissedServerHeartbeats, ServerClosedConnection, panic} x I/O side alive/gone x what is queued for the close call {CloseOk, an error, nothing}"),
         Suite("faults-e2e", "faults", lambda: gen_e2e(tier, seed), monitor=e2e_monitor, nontrivial=nontrivial, compare=False, shards=6, timeout=300,
               rule="real connection, real I/O thread and client threads over the mock transport: a consumer waiting, a call in flight, a publisher publishing, then EOF / reset / garbage bytes / write error / server Connection.Close / total silence with heartbeats: every thread released with an error within 5 s (2h+3 s for silence), Connection::close reports the root cause, the transport object is dropped"),
         Suite("faults", "machine", lambda: gen_faults(tier, seed), monitor=monitor, nontrivial=nontrivial, canon=mg.canon_nondet,
               candidate_ok=mg.candidate_ok, exhaustive=(tier != "quick"),
-              rule="a busy session (2 channels, consumer with deliveries, call in flight, queued submissions, return/confirm/blocked listeners) whose inbound stream of ~%s is cut by EOF / an I/O error of each of 11 kinds (reset, timed out, interrupted, aborted, broken pipe, ...) / a corrupted frame at %s byte offset, and whose writes fail at every write call of a flush in small pieces; afterwards every queue is polled to its end and every kind of submission is attempted" % (
+              rule="a busy session (2 channels, consumer with deliveries, call in flight, queued submissions, return/confirm/blocked listeners) whose inbound stream of ~%s is cut by EOF / an I/O error of each of 11 kinds (reset, timed out, interrupted, aborted, broken pipe, ...) / a corrupted frame at %s byte offset, and whose writes fail at every write call of a flush in small pieces; the same faults while the client's own close is under way (Close queued, CloseOk not yet received); afterwards every queue is polled to its end and every kind of submission is attempted" % (
                   "330 bytes", "every 5th" if tier == "quick" else "EVERY")),
     ]
